@@ -373,6 +373,7 @@ class DiffCheck:
     trusted_base = []
     partial_note = ''
     case_timeout = 600
+    lockset_rules = None     # set of E4L rule ids (lib/lockset.py) relevant to this property, or None
 
     # (*) build the implementation harness from /repo's current tree -> exe path or raise
     def build_impl(self):
@@ -506,6 +507,16 @@ class DiffCheck:
                 c, cm, ci = min(disagreements, key=lambda d: len(d[0]))
                 violations.append(dict(kind='correspondence', message='model and implementation disagree on %d of %d cases' % (len(disagreements), len(cases)),
                                        case=c, model_out=cm, impl_out=ci))
+        # lockset engine (E4L): validates the atomicity assumption of the fine-grained model on multi-vCPU runs
+        self.extra_coverage = dict(getattr(self, 'extra_coverage', {}) or {})
+        if getattr(self, 'lockset_rules', None) and not a.replay:
+            try:
+                import lockset
+                lv, lcov = lockset.run(set(self.lockset_rules), tier=a.tier, seed=seed)
+                violations += lv
+                self.extra_coverage.update(lcov)
+            except Exception as e:
+                violations.append(dict(kind='build', message='lockset engine failed: %s' % str(e)[-1500:], case=None))
         try:
             violations += list(self.extra(self.ctx) or [])
         except Exception as e:
